@@ -17,6 +17,8 @@ through the bounds / allocation / ownership checks in that order, touches only `
 successful instruction advances `$pc` by 4.
 -/
 import FuelVerif.Lemmas.Wide
+import FuelVerif.Lemmas.WideSpec
+import FuelVerif.Model.Memory
 import FuelVerif.Props.C21
 namespace FuelVerif.Alu
 open FuelVerif FuelVerif.Gen FuelVerif.Gen.AluArgs FuelVerif.Instr
@@ -38,10 +40,7 @@ theorem table_wide_ops :
       (instrTable.filter (fun row => WideOp.ofName row.name == some op)).map (·.args) == [op.shape]) = true := by
   decide +kernel
 
-def cmpModeOfNat : Nat → CmpMode
-  | 0 => .EQ | 1 => .NE | 2 => .LT | 3 => .GT | 4 => .LTE | 5 => .GTE | _ => .LZC
-def wMathOpOfNat : Nat → WMathOp
-  | 0 => .ADD | 1 => .SUB | 2 => .NOT | 3 => .OR | 4 => .XOR | 5 => .AND | 6 => .SHL | _ => .SHR
+-- `cmpModeOfNat`, `wMathOpOfNat`: the selector tables of the specification, `Model/WideSpec.lean`
 
 /-- **all 64 immediates** of each family: valid iff the reserved bits are clear and the selector is defined;
 bit 5 = indirect right operand, bit 4 (multiply only) = indirect left operand -/
@@ -50,8 +49,7 @@ theorem imm_valid_iff :
       (compareFromImm imm == if imm / 8 % 4 = 0 ∧ imm % 8 ≤ 6 then some (cmpModeOfNat (imm % 8), decide (imm / 32 = 1)) else none) &&
       (mathFromImm imm == if imm % 32 ≤ 7 then some (wMathOpOfNat (imm % 32), decide (imm / 32 = 1)) else none) &&
       (mulFromImm imm == if imm % 16 = 0 then some (decide (imm / 16 % 2 = 1), decide (imm / 32 = 1)) else none) &&
-      (divFromImm imm == if imm % 32 = 0 then some (decide (imm / 32 = 1)) else none)) = true := by
-  decide +kernel
+      (divFromImm imm == if imm % 32 = 0 then some (decide (imm / 32 = 1)) else none)) = true := imm_table_all
 
 /-! ### (2) operands and results are big-endian numbers -/
 
@@ -453,11 +451,171 @@ theorem writeResult_mem_frame (s : VmSt) (regs' : Regs) (dest n result : Nat) (h
     · exact ⟨fun _ => rfl, fun _ _ => rfl, rfl, rfl⟩
   · exact ⟨fun _ => rfl, fun _ _ => rfl, rfl, rfl⟩
 
+/-! ### (5) ONE closed theorem: `execWide` = the specification, for all 14 opcodes and every failure order -/
+
+/-- **`execWide_spec`** — for every one of the 14 wide-integer opcodes, every operand list of the table shape
+(`d` a 6-bit immediate for the six immediate forms), every memory, call-frame stack and every register file of
+64-bit values, the transcribed implementation `execWide` equals the specification `wideSpec` of
+`Model/WideSpec.lean`: the outcome (registers, memory, status) is determined by the mathematical operation on the
+operand VALUES (`wideMath`: big-endian numbers of the bytes read / zero-extended registers) and the FIRST failing
+stage of `InvalidImmediateValue` ▸ reserved compare destination ▸ read b ▸ read c ▸ read d (each: beyond memory
+before unallocated) ▸ arithmetic overflow / error ▸ [`$of`,`$err` written] ▸ write beyond memory ▸ write
+unallocated ▸ write not owned ▸ store + `$pc += 4`. -/
+theorem execWide_spec (op : WideOp) (a b c d : Nat) (s : VmSt)
+    (himm : op.shape = [.reg, .reg, .reg, .imm06] → d < 64) (hregs : ∀ i, s.regs i < 2 ^ 64) :
+    execWide op [a, b, c, d] s = wideSpec op a b c d s := by
+  have hm16 : (16 : Nat) ≤ memSize := by decide
+  have hm32 : (32 : Nat) ≤ memSize := by decide
+  cases op
+  case WDCM =>
+    have hi := (imm_table d (himm rfl)).1
+    by_cases hc : d / 8 % 4 = 0 ∧ d % 8 ≤ 6
+    · simp only [execWide, wideSpec, widePlan, WideOp.bytes, hi, hc, and_self, if_true]
+      exact wideCmp_body 16 s a _ _ _ _ _ hm16
+    · simp only [execWide, wideSpec, widePlan, hi, hc, if_false]
+  case WQCM =>
+    have hi := (imm_table d (himm rfl)).1
+    by_cases hc : d / 8 % 4 = 0 ∧ d % 8 ≤ 6
+    · simp only [execWide, wideSpec, widePlan, WideOp.bytes, hi, hc, and_self, if_true]
+      exact wideCmp_body 32 s a _ _ _ _ _ hm32
+    · simp only [execWide, wideSpec, widePlan, hi, hc, if_false]
+  case WDOP =>
+    have hi := (imm_table d (himm rfl)).2.1
+    by_cases hc : d % 32 ≤ 7
+    · simp only [execWide, wideSpec, widePlan, WideOp.bytes, hi, hc, if_true]
+      exact wideOp_body 16 s a _ _ _ _ _ hm16 (by decide) (by decide) (hregs c)
+    · simp only [execWide, wideSpec, widePlan, hi, hc, if_false]
+  case WQOP =>
+    have hi := (imm_table d (himm rfl)).2.1
+    by_cases hc : d % 32 ≤ 7
+    · simp only [execWide, wideSpec, widePlan, WideOp.bytes, hi, hc, if_true]
+      exact wideOp_body 32 s a _ _ _ _ _ hm32 (by decide) (by decide) (hregs c)
+    · simp only [execWide, wideSpec, widePlan, hi, hc, if_false]
+  case WDML =>
+    have hi := (imm_table d (himm rfl)).2.2.1
+    by_cases hc : d % 16 = 0
+    · simp only [execWide, wideSpec, widePlan, WideOp.bytes, hi, hc, if_true]
+      exact wideMul_body 16 s a _ _ _ _ _ hm16
+    · simp only [execWide, wideSpec, widePlan, hi, hc, if_false]
+  case WQML =>
+    have hi := (imm_table d (himm rfl)).2.2.1
+    by_cases hc : d % 16 = 0
+    · simp only [execWide, wideSpec, widePlan, WideOp.bytes, hi, hc, if_true]
+      exact wideMul_body 32 s a _ _ _ _ _ hm32
+    · simp only [execWide, wideSpec, widePlan, hi, hc, if_false]
+  case WDDV =>
+    have hi := (imm_table d (himm rfl)).2.2.2
+    by_cases hc : d % 32 = 0
+    · simp only [execWide, wideSpec, widePlan, WideOp.bytes, hi, hc, if_true]
+      exact wideDiv_body 16 s a _ _ _ _ hm16
+    · simp only [execWide, wideSpec, widePlan, hi, hc, if_false]
+  case WQDV =>
+    have hi := (imm_table d (himm rfl)).2.2.2
+    by_cases hc : d % 32 = 0
+    · simp only [execWide, wideSpec, widePlan, WideOp.bytes, hi, hc, if_true]
+      exact wideDiv_body 32 s a _ _ _ _ hm32
+    · simp only [execWide, wideSpec, widePlan, hi, hc, if_false]
+  case WDMD => simp only [execWide, wideSpec, widePlan, WideOp.bytes]; exact wideMuldiv_body 16 s a _ _ _ hm16
+  case WQMD => simp only [execWide, wideSpec, widePlan, WideOp.bytes]; exact wideMuldiv_body 32 s a _ _ _ hm32
+  case WDAM => simp only [execWide, wideSpec, widePlan, WideOp.bytes]; exact wideAddmod_body 16 s a _ _ _ hm16
+  case WQAM => simp only [execWide, wideSpec, widePlan, WideOp.bytes]; exact wideAddmod_body 32 s a _ _ _ hm32
+  case WDMM => simp only [execWide, wideSpec, widePlan, WideOp.bytes]; exact wideMulmod_body 16 s a _ _ _ hm16
+  case WQMM => simp only [execWide, wideSpec, widePlan, WideOp.bytes]; exact wideMulmod_body 32 s a _ _ _ hm32
+
+/-- **which error wins**: the status of the specification is the first failing entry of the priority list
+`wideStages`, every entry of which is a total function of the initial state -/
+theorem wideSpec_status (op : WideOp) (a b c d : Nat) (s : VmSt) :
+    (wideSpec op a b c d s).2 = firstSome (wideStages op a b c d s) := by
+  unfold wideSpec wideStages
+  cases hp : widePlan op d with
+  | none => rfl
+  | some p =>
+    simp only [wideSpecBody]
+    by_cases h0 : p.kind.isCmp = true ∧ a < 16
+    · simp [h0, firstSome]
+    · simp only [h0, if_false, firstSome]
+      cases operandFail s.mem p.indB (s.regs b) op.bytes <;> cases operandFail s.mem p.indC (s.regs c) op.bytes <;>
+        cases operandFail s.mem p.third (s.regs d) op.bytes <;> simp only [firstSome]
+      cases wideMath (8 * op.bytes) p.kind (operandVal s.mem p.indB (s.regs b) op.bytes)
+          (operandVal s.mem p.indC (s.regs c) op.bytes) (operandVal s.mem p.third (s.regs d) op.bytes)
+          (isWrapping (s.regs regFLAG)) (isUnsafeMath (s.regs regFLAG)) with
+      | error e => rfl
+      | ok v =>
+        by_cases hc : p.kind.isCmp = true
+        · simp [hc, firstSome]
+        · simp only [hc, Bool.false_eq_true, if_false, writeFail, Bool.false_or]
+          cases accessFail s.mem (s.regs a) op.bytes <;> simp only [firstSome]
+          by_cases ho : ownsRange s (s.regs a) op.bytes = true <;> simp [ho, firstSome]
+
+/-- the same for the implementation model -/
+theorem execWide_status (op : WideOp) (a b c d : Nat) (s : VmSt)
+    (himm : op.shape = [.reg, .reg, .reg, .imm06] → d < 64) (hregs : ∀ i, s.regs i < 2 ^ 64) :
+    (execWide op [a, b, c, d] s).2 = firstSome (wideStages op a b c d s) := by
+  rw [execWide_spec op a b c d s himm hregs, wideSpec_status]
+
+theorem setOfErr_other (r : Regs) (x y j : Nat) (h1 : j ≠ regOF) (h2 : j ≠ regERR) : setOfErr r x y j = r j := by
+  simp [setOfErr, Regs.set, h1, h2]
+
+/-- **a panicking wide instruction** changes no memory, no allocation bound, no call frame and no register other than
+`$of` / `$err` (those only when the panic comes from the result write) -/
+theorem execWide_panic_frame (op : WideOp) (a b c d : Nat) (s : VmSt)
+    (himm : op.shape = [.reg, .reg, .reg, .imm06] → d < 64) (hregs : ∀ i, s.regs i < 2 ^ 64)
+    (hp : (execWide op [a, b, c, d] s).2 ≠ none) :
+    (execWide op [a, b, c, d] s).1.mem = s.mem ∧ (execWide op [a, b, c, d] s).1.frames = s.frames ∧
+    ∀ j, j ≠ regOF → j ≠ regERR → (execWide op [a, b, c, d] s).1.regs j = s.regs j := by
+  rw [execWide_spec op a b c d s himm hregs] at hp ⊢
+  unfold wideSpec at hp ⊢
+  cases hpl : widePlan op d with
+  | none => exact ⟨rfl, rfl, fun _ _ _ => rfl⟩
+  | some p =>
+    rw [hpl] at hp
+    simp only [wideSpecBody] at hp ⊢
+    by_cases h0 : p.kind.isCmp = true ∧ a < 16
+    · simp [h0]
+    · simp only [h0, if_false] at hp ⊢
+      generalize firstSome [operandFail s.mem p.indB (s.regs b) op.bytes, operandFail s.mem p.indC (s.regs c) op.bytes,
+        operandFail s.mem p.third (s.regs d) op.bytes] = F at hp ⊢
+      cases F with
+      | some e => exact ⟨rfl, rfl, fun _ _ _ => rfl⟩
+      | none =>
+        simp only [] at hp ⊢
+        generalize wideMath (8 * op.bytes) p.kind (operandVal s.mem p.indB (s.regs b) op.bytes)
+          (operandVal s.mem p.indC (s.regs c) op.bytes) (operandVal s.mem p.third (s.regs d) op.bytes)
+          (isWrapping (s.regs regFLAG)) (isUnsafeMath (s.regs regFLAG)) = R at hp ⊢
+        cases R with
+        | error e => exact ⟨rfl, rfl, fun _ _ _ => rfl⟩
+        | ok v =>
+          simp only [] at hp ⊢
+          by_cases hc : p.kind.isCmp = true
+          · simp only [hc, if_true] at hp
+            exact absurd rfl hp
+          · simp only [hc, if_false] at hp ⊢
+            generalize writeFail s (s.regs a) op.bytes = Wf at hp ⊢
+            cases Wf with
+            | some e => exact ⟨rfl, rfl, fun j h1 h2 => setOfErr_other _ _ _ _ h1 h2⟩
+            | none => exact absurd rfl hp
+
+/-- **`prev_hp` comes from the call frames**: the ownership registers of the model are those of
+`OwnershipRegisters::new` as modelled for C24 (`Ownership.ofVm`, `ofVm_prevHp`): `$sp`, `$ssp`, `$hp`, and the `$hp`
+saved in the innermost call frame, `VM_MAX_RAM` when there is none -/
+theorem owner_ofVm (s : VmSt) :
+    s.owner.sp = (Memory.Ownership.ofVm Gen.memSize (s.regs regSP) (s.regs regSSP) (s.regs regHP) s.frames.getLast?).sp ∧
+    s.owner.ssp = (Memory.Ownership.ofVm Gen.memSize (s.regs regSP) (s.regs regSSP) (s.regs regHP) s.frames.getLast?).ssp ∧
+    s.owner.hp = (Memory.Ownership.ofVm Gen.memSize (s.regs regSP) (s.regs regSSP) (s.regs regHP) s.frames.getLast?).hp ∧
+    s.owner.prevHp = (Memory.Ownership.ofVm Gen.memSize (s.regs regSP) (s.regs regSSP) (s.regs regHP) s.frames.getLast?).prevHp ∧
+    (s.frames = [] → s.owner.prevHp = vmMaxRam) ∧ (∀ fs f, s.frames = fs ++ [f] → s.owner.prevHp = f) := by
+  refine ⟨rfl, rfl, rfl, ?_, ?_, ?_⟩
+  · simp only [VmSt.owner, VmSt.prevHp, Memory.Ownership.ofVm]
+    have : vmMaxRam = Gen.memSize := by decide
+    rw [this]
+  · intro h; simp [VmSt.owner, VmSt.prevHp, h]
+  · intro fs f h; simp [VmSt.owner, VmSt.prevHp, h]
+
 /-! ### non-vacuity: a concrete state executed through the model -/
 
 def exMem : Mem := { stackLen := 128, hp := vmMaxRam, bytes := fun a => if a = 15 then 7 else if a = 31 then 5 else 0 }
 def exSt : VmSt := { regs := fun i => if i = 1 then 1 else if i = 16 then 64 else if i = 17 then 0 else if i = 18 then 16 else if i = 4 then 32 else if i = 5 then 128 else if i = 7 then vmMaxRam else 0,
-                     mem := exMem, prevHp := vmMaxRam }
+                     mem := exMem, frames := [] }
 
 example : (readWide exMem 0 16).toOption = some 7 := by decide
 example : (execWide .WDOP [16, 17, 18, 0x20] exSt).2 = none := by decide     -- 7 + 5 (indirect rhs)
@@ -468,5 +626,15 @@ example : (execWide .WDCM [20, 17, 18, 0x23] exSt).1.regs 20 = 1 := by decide   
 example : (execWide .WDDV [16, 17, 1, 0x00] exSt).2 = none := by decide          -- divide by $one (direct)
 example : (execWide .WDDV [16, 17, 0, 0x00] exSt).2 = some .ArithmeticError := by decide
 example : (execWide .WDOP [17, 17, 18, 0x20] exSt).2 = some .MemoryOwnership := by decide  -- dest below $ssp
+-- the specification on the same state; inside a call (`frames = [saved $hp]`) the heap above the saved `$hp` is the caller's
+example : (wideSpec .WDOP 16 17 18 0x20 exSt).2 = none ∧ (wideSpec .WDOP 16 17 18 0x28 exSt).2 = some .InvalidImmediateValue := by decide
+example : (List.range 64).all (fun i => decide (exSt.regs i < 2 ^ 64)) = true := by decide
+def exHeapMem : Mem := { stackLen := 128, hp := vmMaxRam - 64, bytes := fun a => if a = 15 then 7 else if a = 31 then 5 else 0 }
+def exCall : VmSt := { regs := fun i => if i = 16 then vmMaxRam - 32 else if i = 17 then 0 else if i = 18 then 16 else if i = 4 then 32 else if i = 5 then 128 else if i = 7 then vmMaxRam - 64 else 0,
+                       mem := exHeapMem, frames := [vmMaxRam, vmMaxRam - 40] }
+example : exCall.prevHp = vmMaxRam - 40 := by decide
+example : (wideSpec .WDOP 16 17 18 0x20 exCall).2 = some .MemoryOwnership := by decide               -- [max-32, max-16) crosses the caller's $hp
+example : (wideSpec .WDOP 16 17 18 0x20 { exCall with frames := [] }).2 = none := by decide            -- the same write in a script is owned
+example : firstSome (wideStages .WDOP 16 17 18 0x28 exCall) = some .InvalidImmediateValue := by decide -- an invalid immediate beats the unowned destination
 
 end FuelVerif.Alu
